@@ -1455,6 +1455,83 @@ def integrands_emit(chk, info, scales):
         chk.ob("F9-integrand", i["node"], q, ok, why, file=rel, func=q)
 
 
+_NP_VIEW_FUNCS = {"reshape", "ravel", "transpose", "squeeze", "swapaxes", "moveaxis", "rollaxis", "expand_dims", "atleast_1d", "atleast_2d",
+                  "atleast_3d", "broadcast_to", "asarray", "asanyarray", "ascontiguousarray", "real", "imag", "diagonal", "flip", "flipud",
+                  "fliplr", "rot90", "split", "array_split", "hsplit", "vsplit", "lib.stride_tricks.as_strided", "lib.stride_tricks.sliding_window_view"}
+_VIEW_METHODS = {"reshape", "ravel", "transpose", "view", "squeeze", "swapaxes", "diagonal"}
+
+
+def unfollowed_view_writes(fn, shared_pred, covered=()):
+    """Complement of lints.shared_state_mutations for the forms that engine does not look at (it answers neither 'finding' nor
+    'undecided' for them): a name bound to a FUNCTIONAL view of shared state (`np.reshape(X, ..)`, `np.ravel(X)`, ...) that is then
+    stored through, and ufunc / numpy calls that receive shared state or a reference to it as `out=`.
+    -> [(node, description)]: possible writes into the shared object, never established here (the caller reports them UNDECIDED).
+    `covered`: statements the engine already gave a verdict for.  References are followed flow-insensitively (any binding of the name
+    counts): an over-approximation, which is sound for an UNDECIDED verdict."""
+    refs: dict[str, str] = {}
+
+    def refers(e, functional=False):
+        """(shared expression this is a reference to or None, passed through a functional view form)"""
+        if isinstance(e, ast.Name):
+            if e.id in refs:
+                return refs[e.id], functional or e.id in via_func
+            return (e.id, functional) if shared_pred(e.id) else (None, False)
+        if isinstance(e, (ast.Attribute, ast.Subscript)) and shared_pred(src(e)):
+            return src(e), functional
+        if isinstance(e, ast.Subscript):
+            return refers(e.value, functional)
+        if isinstance(e, ast.Attribute) and e.attr in ("T", "real", "imag", "flat"):
+            return refers(e.value, functional)
+        if isinstance(e, ast.Call) and isinstance(e.func, ast.Attribute):
+            f_ = src(e.func)
+            if f_.split(".")[0] in ("np", "numpy") and f_.split(".", 1)[-1] in _NP_VIEW_FUNCS and e.args:
+                return refers(e.args[0], True)
+            if e.func.attr in _VIEW_METHODS and f_.split(".")[0] not in ("np", "numpy"):
+                return refers(e.func.value, functional)
+        return None, False
+
+    via_func: set[str] = set()
+    for _ in range(3):
+        for st in ast.walk(fn):
+            if isinstance(st, ast.Assign) and len(st.targets) == 1 and isinstance(st.targets[0], ast.Name):
+                r, fu = refers(st.value)
+                if r is not None:
+                    refs[st.targets[0].id] = r
+                    if fu:
+                        via_func.add(st.targets[0].id)
+    out = []
+    for st in ast.walk(fn):
+        if any(st is c for c in covered):
+            continue
+        if isinstance(st, (ast.Assign, ast.AugAssign)):
+            for t in (st.targets if isinstance(st, ast.Assign) else [st.target]):
+                base = t.value if isinstance(t, ast.Subscript) else t if isinstance(st, ast.AugAssign) else None
+                if base is None:
+                    continue
+                r, fu = refers(base)
+                if r is not None and fu:
+                    out.append((st, f"`{src(st)[:50]}` stores through `{src(base)[:40]}`, obtained from the shared `{r}` by a numpy "
+                                    "function that returns a view when it can"))
+        elif isinstance(st, ast.Call):
+            for k in st.keywords:
+                if k.arg == "out":
+                    for e in (k.value.elts if isinstance(k.value, (ast.Tuple, ast.List)) else [k.value]):
+                        r, _fu = refers(e)
+                        if r is not None:
+                            out.append((st, f"`{src(st)[:50]}` writes its result into `{src(e)[:40]}`, a reference to the shared `{r}`"))
+    return out
+
+
+def _arith_inplace_on_slice(node, why):
+    """The engine left open whether a SLICE is a view (array) or a copy (list): the only assumption missing, by its reason text.
+    AUDIT: `name -= v` (also /=, //=, **=, %=) on a name bound to a slice: list / tuple / str slices have no such operator (TypeError), a
+    number cannot be sliced, so wherever the statement completes the sliced object is a numpy array and the slice a view of it,
+    updated in place.  (`+=` and `*=` exist for lists: not decided here.)"""
+    return isinstance(node, ast.AugAssign) and isinstance(node.target, ast.Name) and \
+        isinstance(node.op, (ast.Sub, ast.Div, ast.FloorDiv, ast.Pow, ast.Mod)) and \
+        ("a view when the element is an array, a copy when it is a list" in why or "is a slice: a view for an array, a copy for a list" in why)
+
+
 def coordinates_read_only(chk):
     """the constructors (and the helpers that receive eta_grid) only read the coordinate arrays, which every object shares"""
     from .. import lints
@@ -1470,6 +1547,19 @@ def coordinates_read_only(chk):
                    "the coordinate arrays are only read (views are not written through)" if not muts else
                    "; ".join(d for _, d in muts)[:300] + " - eta_grid is shared by the grid and by every object built from it: all "
                    "of them see the modified coordinates afterwards", file=rel, func=q)
+            # possible writes the engine could not establish (alias liveness / view-or-copy not followed): undecided, not HOLDS
+            for node, desc, why in getattr(muts, "undecided", ()):
+                okm, whym = None, f"{desc}: not established ({why})"
+                if _arith_inplace_on_slice(node, why):
+                    okm = False
+                    whym = (f"{desc}: `{src(node)[:50]}` updates a slice in place with an operator that lists, tuples and strings do not "
+                            "have, so the slice is one of a numpy array: a view - eta_grid is shared by the grid and by every object built "
+                            "from it: all of them see the modified coordinates afterwards")
+                chk.ob("G2-coordinates-read-only", node, f"{q}: eta_grid: {desc}"[:160], okm, whym, file=rel, func=q)
+            done = [m[0] for m in muts] + [m[0] for m in getattr(muts, "undecided", ())]
+            for node, desc in unfollowed_view_writes(fn, lambda s_: s_ == "eta_grid" or s_.startswith("eta_grid["), done):
+                chk.ob("G2-coordinates-read-only", node, f"{q}: eta_grid: {desc}"[:160], None,
+                       f"{desc}: whether the coordinate arrays are modified is not followed", file=rel, func=q)
 
 
 # ---------------------------------------------------------------------------------------------------------------------
@@ -3729,7 +3819,13 @@ def extrema(chk):
             gmod._link()
             chk.note("loops left early read as flag loops: " + "; ".join(latched))
         # a query: nothing reachable from the grid is modified, so the answer does not depend on earlier requests
-        muts = [x for g in group for x in lints.shared_state_mutations(g, lambda s_: s_.startswith("self."))]
+        res_ = [lints.shared_state_mutations(g, lambda s_: s_.startswith("self.")) for g in group]
+        muts = [x for r_ in res_ for x in r_]
+        # possible modifications the engine could not establish (alias liveness / view-or-copy not followed): undecided, not HOLDS
+        for r_ in res_:
+            for node_, desc_, why_ in getattr(r_, "undecided", ()):
+                chk.ob("E7-query-purity", node_, f"Grid.{m} modifies nothing of the grid: {desc_}"[:160], None,
+                       f"{desc_}: not established ({why_})", file=U.GRID, func=q)
         # AUDIT: "an earlier request changes the answer of a later one" = the state that is modified is also READ by the query (outside
         # the modifying statement itself): a store into something the query never looks at (a log, a counter) does not change
         # what it reports -> UNDECIDED
